@@ -344,7 +344,12 @@ impl TBox {
                 let t = t.borrow();
                 let mut idx: Vec<usize> = t.0.iter().map(|(i, _)| *i).collect();
                 idx.sort();
-                idx.iter().map(|i| Self::show_bucket(*i)).collect::<Vec<_>>().join(";")
+                let all = idx.iter().map(|i| Self::show_bucket(*i)).collect::<Vec<_>>().join(";");
+                if all.is_empty() {
+                    "-".to_string()
+                } else {
+                    all
+                }
             }),
             _ => return None,
         };
